@@ -20,6 +20,29 @@ type Case struct {
 	S          uint64 `json:"size"`
 	Switches   int    `json:"switches"`
 	Containers bool   `json:"containers"`
+	// Hooks: before the case is judged, custom package-level Formatter and Parser functions are installed, used and removed.
+	Hooks bool `json:"after_custom_hooks,omitempty"`
+}
+
+// pokeWithCustomHooks: the package-level Formatter and Parser are settings; what was produced under one setting must not be
+// handed out under the next. The HTML rendering is requested as well: it is a third rendering of the same size.
+func pokeWithCustomHooks(s size.Size) {
+	_ = s.PrettyHTML()
+	oldF, oldP := size.Formatter, size.Parser
+	defer func() { size.Formatter, size.Parser = oldF, oldP }()
+	size.Formatter = func(buf []byte, s size.Size, f size.Format) ([]byte, error) {
+		return append(buf, fmt.Sprintf("custom<%d>", uint64(s))...), nil
+	}
+	size.Parser = func(input []byte, r size.Rule) (size.Size, error) { return 666, nil }
+	_, _, _ = s.String(), s.PrettyString(), s.PrettyHTML()
+	_ = fmt.Sprintf("%s %v", s, s)
+	_, _ = s.MarshalText()
+	_, _ = s.MarshalJSON()
+	_, _ = json.Marshal(map[string]size.Size{"a": s})
+	var u size.Size
+	_ = u.UnmarshalText([]byte("3 KiB"))
+	_ = u.UnmarshalJSON([]byte(`{"value":3,"unit":"KiB"}`))
+	_ = json.Unmarshal([]byte(`["1kB"]`), &[]size.Size{})
 }
 
 func configure(sw int) func() {
@@ -51,6 +74,9 @@ func judge(c Case, w *vkit.W) {
 	}()
 	s := size.Size(c.S)
 	const other = size.Size(0xDEADBEEF)
+	if c.Hooks {
+		pokeWithCustomHooks(s)
+	}
 	if w.Flip() && (c.S%8 == 3 || c.Containers) {
 		// earlier calls that fail must not influence later ones: a few rejected inputs before the round trips
 		var junk size.Size
@@ -65,7 +91,7 @@ func judge(c Case, w *vkit.W) {
 		w.Fail(c, "marshal-error", fmt.Sprintf("Size(%d).MarshalText() error %v (switches %03b)", c.S, err, c.Switches))
 	} else {
 		back := other
-		if err := back.UnmarshalText(text); err != nil || back != s {
+		if err := back.UnmarshalText(w.Scratch(string(text))); err != nil || back != s { // read from a reused caller buffer
 			w.Fail(c, "text-round-trip", fmt.Sprintf("Size(%d): MarshalText = %q, UnmarshalText -> %d, %v (switches %03b)", c.S, text, uint64(back), err, c.Switches))
 		}
 	}
@@ -80,7 +106,7 @@ func judge(c Case, w *vkit.W) {
 			w.Fail(c, "marshal-json-invalid", fmt.Sprintf("Size(%d).MarshalJSON() = %q is not valid JSON (switches %03b)", c.S, js, c.Switches))
 		}
 		back := other
-		if err := back.UnmarshalJSON(js); err != nil || back != s {
+		if err := back.UnmarshalJSON(w.Scratch(string(js))); err != nil || back != s {
 			w.Fail(c, "json-round-trip", fmt.Sprintf("Size(%d): MarshalJSON = %q, UnmarshalJSON -> %d, %v (switches %03b)", c.S, js, uint64(back), err, c.Switches))
 		}
 		w.RetainBytes(c, "MarshalJSON", js, string(js))
@@ -93,17 +119,24 @@ func judge(c Case, w *vkit.W) {
 			w.Class("json_form_number")
 		}
 	}
-	for _, r := range []struct{ name, text string }{{"String", s.String()}, {"PrettyString", s.PrettyString()}} {
+	for _, rd := range []struct {
+		name   string
+		render func() string
+	}{{"String", s.String}, {"PrettyString", s.PrettyString}} {
+		if c.Hooks {
+			_ = s.PrettyHTML() // the rendering asked for just before is a different one of the same size
+		}
+		r := struct{ name, text string }{rd.name, rd.render()}
 		got, err := size.DefaultParser(r.text, 0)
 		if err != nil || got != s {
 			w.Fail(c, "rendering-round-trip", fmt.Sprintf("Size(%d).%s() = %q, DefaultParser[string] -> %d, %v", c.S, r.name, r.text, uint64(got), err))
 		}
-		got, err = size.DefaultParser([]byte(r.text), 0)
+		got, err = size.DefaultParser(w.Scratch(r.text), 0)
 		if err != nil || got != s {
 			w.Fail(c, "rendering-round-trip", fmt.Sprintf("Size(%d).%s() = %q, DefaultParser[[]byte] -> %d, %v", c.S, r.name, r.text, uint64(got), err))
 		}
 		back := other
-		if err := back.UnmarshalText([]byte(r.text)); err != nil || back != s {
+		if err := back.UnmarshalText(w.Scratch(r.text)); err != nil || back != s {
 			w.Fail(c, "rendering-round-trip", fmt.Sprintf("Size(%d).%s() = %q, UnmarshalText -> %d, %v", c.S, r.name, r.text, uint64(back), err))
 		}
 	}
@@ -208,6 +241,19 @@ func TestCheck(t *testing.T) {
 		})
 	}
 	r.Exhaustive(fmt.Sprintf("%d stratified sizes x all 8 switch settings through text, JSON and rendering paths", len(strata)))
+	r.Phase("H: every path again right after the HTML rendering was requested and custom package-level Formatter/Parser functions were installed, used and removed", func() {
+		for sw := 0; sw < 8; sw++ {
+			restore := configure(sw)
+			r.Serial(func(w *vkit.W) {
+				for i := 0; i < len(strata); i += 41 {
+					c := Case{S: strata[i], Switches: sw, Containers: i%3 == 0, Hooks: true}
+					judge(c, w)
+					w.EvalRandom(vkit.HashU(c.S, uint64(sw), 77), nontrivial(c.S))
+				}
+			})
+			restore()
+		}
+	})
 	r.Sampled()
 	r.Phase(fmt.Sprintf("cold start: %d scenarios (the first call of a fresh process is an unmarshal of text produced elsewhere)", len(coldScenarios)), func() {
 		r.Serial(func(w *vkit.W) {
